@@ -324,6 +324,35 @@ def check(model, rep, tier):
             'the lambda must be located in the parse of the unmodified, whole '
             'source file', line=pl.node.lineno)
 
+  # the lambdas are gathered from *every* statement that starts at or before
+  # the definition line: the root handed to ast.walk is the variable of an
+  # iteration over those statements, not one statement picked beforehand
+  walks = [c for c in ast.walk(pl.node) if isinstance(c, ast.Call) and
+           core.dotted(c.func) == 'ast.walk' and len(c.args) == 1 and
+           isinstance(c.args[0], ast.Name)]
+  roots_ok = bool(walks)
+  roots = []
+  for w in walks:
+    x = w.args[0].id
+    bound_by_iteration = False
+    for n in ast.walk(pl.node):
+      if isinstance(n, ast.For) and isinstance(n.target, ast.Name) and n.target.id == x \
+          and any(y is w for b in n.body for y in ast.walk(b)):
+        bound_by_iteration = True
+      if isinstance(n, (ast.GeneratorExp, ast.ListComp, ast.SetComp)):
+        ts = [g.target.id for g in n.generators if isinstance(g.target, ast.Name)]
+        if x in ts and any(y is w for y in ast.walk(n)):
+          bound_by_iteration = True
+    roots.append((x, bound_by_iteration))
+    roots_ok = roots_ok and bound_by_iteration
+  rep.check(roots_ok, 'SRC-LAMBDA', '%s:searches-every-preceding-statement' % pl.site,
+            'a line can hold several statements (`a = lambda ..; b = lambda ..`): '
+            'the candidate lambdas must come from all statements starting at or '
+            'before the definition line; with one pre-selected statement a '
+            'sibling lambda becomes the single candidate and is returned without '
+            'the signature check', {'walk_roots': roots}, line=pl.node.lineno,
+            witness='scale = lambda v, f=3: ...; negate = lambda v: -v  -- to_graph(scale)')
+
   # signature narrowing compares every parameter group with its counterpart
   nm = model.func(PARSER, '_node_matches_argspec')
   np_, fp_ = nm.params()[:2]
